@@ -47,6 +47,13 @@ def run(run_):
     for s in (out.get("unstable") or [])[:3]:
         run_.violation("StringToNote(%r) gives a different answer when evaluated again after the other strings of the sweep: the answer may depend on the "
                        "string only" % s_of(s), {"call": "config.StringToNote (twice, other strings in between)", "input_bytes": s, "input": s_of(s)})
+    for c in (out.get("concurrent") or [])[:3]:
+        fmt = lambda v: "rejected" if v == -1 else ("a panic" if v == -2 else str(v))
+        run_.violation("StringToNote(%r) = %s while 15 other goroutines convert other strings, but %s when called alone: the answer may depend on the "
+                       "string only (%d differing answers in %d concurrent calls)" % (s_of(c["s"]), fmt(c["got"]), fmt(c["want"]), len(out["concurrent"]),
+                                                                                      out.get("concurrent_calls", 0)),
+                       {"call": "config.StringToNote from 16 goroutines at once (schedule-dependent: the replay repeats the whole concurrent pass)",
+                        "input_bytes": c["s"], "input": s_of(c["s"]), "implementation_concurrent": c["got"], "implementation_alone": c["want"]})
     for p in out["panics"]:
         run_.violation("StringToNote panicked on %s" % p, {"call": "config.StringToNote", "input": p})
     run_.coverage.update({
@@ -60,6 +67,7 @@ def run(run_):
         "exhaustive": True,
         "exhaustive_domain": "strings of length <= %d over alphabet %r; numbers 0..127" % (maxlen, ALPHABET),
         "accepted_by_implementation": len(acc),
+        "concurrent_calls_compared_with_sequential_answers": out.get("concurrent_calls", 0),
         "correspondence_obligations": 3,
     })
     run_.assumptions += ["Go regexp / strconv.Atoi / strings.ToUpper behave as modelled on inputs outside the swept space (validated on the swept space)"]
